@@ -181,6 +181,35 @@ def run(argv):
             chk.violation({"kind": "read-raised", "error": type(e).__name__}, f"reading generated window files raised {e}")
             continue
         R = [reacs[i] for i in order]  # reactions in network order
+        # a network written in the KROME format and read back keeps every window (bounds are spelled NONE / numbers there)
+        try:
+            with silenced():
+                net.write(str(d / "rewritten.krome"), "krome")
+                reset_species_state()
+                back = Network(filelist=[str(d / "rewritten.krome")], fileformats=["krome"], elements=["H", "C", "N", "O"], pseudo_elements=["CR"])
+        except Exception as e:
+            chk.hist["krome-rewrite-refused:" + type(e).__name__] += 1
+            back = None
+        if back is not None and len(back.reaction_list) == len(net.reaction_list):
+            chk.hist["krome-rewrite"] += 1
+            for a, b_ in zip(net.reaction_list, back.reaction_list):
+                # (the writer prints the bounds with two decimals, like the native format: the window is compared at that precision)
+                amin, amax = round(a.temp_min, 2), round(a.temp_max, 2)
+                act = lambda r, T: ((r is a and (amin <= 0 or amin <= T) and (amax <= 0 or T < amax))
+                                    or (r is not a and (r.temp_min <= 0 or r.temp_min <= T) and (r.temp_max <= 0 or T < r.temp_max)))
+                pts = {1.0, 3e5}
+                for bnd in (amin, amax):
+                    if bnd > 0:
+                        pts |= {math.nextafter(bnd, 0.0), bnd, math.nextafter(bnd, math.inf)}
+                badT = next((T for T in sorted(pts) if act(a, T) != act(b_, T)), None)
+                if badT is not None:
+                    chk.violation({"kind": "window-lost-in-krome-file"},
+                                  f"a reaction with window [{a.temp_min}, {a.temp_max}) written in the KROME format and read back has the window "
+                                  f"[{b_.temp_min}, {b_.temp_max}): at T={badT!r} it is {'active' if act(b_, badT) else 'inactive'} instead of "
+                                  f"{'active' if act(a, badT) else 'inactive'}", input={"reactants": [s.name for s in a.reactants],
+                                                                                     "products": [s.name for s in a.products]})
+                    break
+        reset_species_state()
         backends = ["dense", "rosenbrock4", "cusparse"] if tier == "quick" else ["dense", "sparse", "rosenbrock4", "cusparse"]
         for b in backends:
             path = d / b
